@@ -135,9 +135,11 @@ impl SimState {
 
     /// Faults that can still fire (used for liveness budgets).
     pub fn pending_fires(&self) -> u64 {
+        let pos = self.accepted.len();
         self.faults
             .iter()
             .zip(&self.fired)
+            .filter(|(f, _)| f.at >= pos || matches!(f.kind, FaultKind::FlushErr(_)))
             .map(|(f, n)| (f.times.saturating_sub(*n)).min(16) as u64)
             .sum()
     }
@@ -188,13 +190,15 @@ impl SimState {
             }
         }
         if len > 0 {
-            // the first armed fault at (or, in a hand-edited script, before) this offset fires;
-            // an empty write carries no data, faults wait for a real one
+            // the first armed fault at exactly this offset fires (an empty write carries no data,
+            // faults wait for a real one).  A fault whose offset has been passed - another fault at
+            // the same offset let bytes through - is dead: firing it "at the next call" would make
+            // the script depend on the call granularity of the code under test.
             for i in 0..self.faults.len() {
                 let f = self.faults[i];
                 if matches!(f.kind, FaultKind::FlushErr(_))
                     || self.fired[i] >= f.times
-                    || f.at > pos
+                    || f.at != pos
                 {
                     continue;
                 }
